@@ -36,6 +36,6 @@ pkgs=$(cd $sv && git diff --name-only | xargs -n1 dirname | sort -u | sed 's|^|.
 (cd $sv && go test -vet=off -count=1 $pkgs ./x/xibc/... ./x/aggregate/... 2>&1 | grep -v "no test files" | grep -v "^ok" | tail -8) | tee $S/existing_tests_with.txt
 git -C /repo worktree remove --force $sv
 echo "== check $prop against the change"
-git -C /repo apply $S/patch.diff && (cd /verif && ./check $prop --tier quick 2>&1 | grep -v "^KNOWN" | tail -4) | tee $S/check_quick.txt
+git -C /repo apply $S/patch.diff && (cd /verif && ./check $prop --tier quick --no-evidence 2>&1 | grep -v "^KNOWN" | tail -4) | tee $S/check_quick.txt
 git -C /repo checkout -- .
 git -C /repo status --short | head -3
